@@ -22,8 +22,8 @@ EXHAUSTIVE = {"quick": False, "thorough": True}
 K = 8
 OPS = ["connect", "connect-auth", "shell", "exec_out", "streaming_shell", "root", "reboot", "list", "stat", "pull", "pull-cb", "push"]
 STALLS = ["silence", "eof", "trickle", "other-traffic", "unexpected"]
-TS = [None, 0, 0.5, -1]
-RS = [0, 0.3, 2, -1]
+TS = [None, 0, 0.5, -1, 3]
+RS = [0, 0.3, 2, -1, 10]
 XS = [None, 0, 1, 5]
 AS = [0.4, 3.0]
 
@@ -31,7 +31,8 @@ AS = [0.4, 3.0]
 def gen_cases(tier, seed):
     if tier == "quick":
         tuples = [(0.5, 2, 5, 3.0), (None, 0.3, None, 0.4), (0, 2, 1, 3.0), (-1, -1, 0, 0.4), (None, 0, None, 3.0), (0.5, 0.3, 5, 0.4), (None, 2, 0, 3.0),
-                  (0, 0, None, 0.4), (-1, 2, 5, 3.0), (0.5, -1, 1, 0.4), (None, 2, 1, 3.0), (0, 0.3, 0, 3.0)]
+                  (0, 0, None, 0.4), (-1, 2, 5, 3.0), (0.5, -1, 1, 0.4), (None, 2, 1, 3.0), (0, 0.3, 0, 3.0),
+                  (0.5, 2, 0, 3.0), (3, 10, 1, 0.4), (50, 100, 1, 3.0), (3, 2, None, 3.0)]
     else:
         tuples = [(t, r, x, a) for t in TS for r in RS for x in XS for a in AS[:1]] + [(0.5, 2, 5, 3.0), (None, 2, None, 3.0)]
     i = 0
@@ -128,7 +129,7 @@ def setup(impl, case):
 class Staller(object):
     """wraps core.bulk_read: once the device has emitted `stop` packets it stalls in the given way"""
 
-    def __init__(self, sess, stop, kind, teff):
+    def __init__(self, sess, stop, kind, teff, reff=2.0):
         self.sess = sess
         self.core = sess.core
         self.sim = sess.sim
@@ -139,6 +140,7 @@ class Staller(object):
         self.floods = 0
         self.next_byte_at = None
         self.pace = max(0.9 * (teff if teff and teff > 0 else 0), 0.05)
+        self.flood_pace = max(0.05, (reff if reff and reff > 0 else 0) / 40.0)   # a finite-rate device: ~40 packets per read timeout
         sess.core.bulk_read = self.read
         if kind == "eof":
             self.core.stall = "eof"
@@ -175,7 +177,7 @@ class Staller(object):
             self.reached = True
             if self.kind in ("other-traffic", "unexpected"):
                 self.floods += 1
-                core.clock.advance(0.05)
+                core.clock.advance(self.flood_pace)
                 st = self.target_stream()
                 if self.kind == "unexpected" and st is not None and sim.connected:
                     raw = wire.pack("SYNC", st.remote, st.local, b"")
@@ -221,7 +223,7 @@ def run_case(case):
             sess, do, _ = setup(impl, case)
             try:
                 e0 = 0 if op.startswith("connect") else sess.sim.emitted
-                st = Staller(sess, e0 + j, kind, t_eff)
+                st = Staller(sess, e0 + j, kind, t_eff, r_eff)
                 nreads = len(sess.core.read_timeouts)
                 t0 = sess.clock.now()
                 out = do()
